@@ -589,7 +589,7 @@ class GeneInfo:
                 feature_type += "M"
 
             feature_properties.append(FeatureInfo(self.chr_id, feature[0], feature[1], strand_str,
-                                                  feature_type, list(gene_ids)))
+                                                  feature_type, sorted(gene_ids)))
 
         assert len(feature_properties) == len(feature_profiles.features)
         return feature_properties
